@@ -1,0 +1,57 @@
+//go:build verif
+
+// Contracts for the deductive checker in /verif (govc). Comment-only; ignored without the
+// "verif" build tag.
+//
+// C11, base application. ms.shared[m] says that multistore m hands out the root's own substores; the
+// multistore contracts are in /verif/spec/extern/baseapp_ms.go.txt.
+
+package baseapp
+
+//@ ghost ms.shared (Array Iface Bool)
+//@ ghost ms.cwrites Int
+//@ ghost ms.lastwrite $store/types.CacheMultiStore
+
+// The message handler is reached through a function value: it may do anything to module state (C11 for
+// handlers is proved in x/pos and x/gov), but it has no access to the ante handler's cache multistore.
+// C11 (Simulate never changes state): in Simulate mode the handler must get a context whose multistore does
+// not hand out the root's substores.
+//@ func (app *BaseApp) runMsg(ctx sdk.Ctx, msg sdk.Msg, mode runTxMode) (result sdk.Result)
+//@   props C11
+//@   mode heap
+//@   requires [simulate-isolated@C11] mode == 1 ==> !ms.shared[unbox(ctx, "types.Context").ms]
+//@   modifies everything
+//@   keeps ms.
+//@   may_panic
+//@   ensures [nowrite] ms.cwrites == old(ms.cwrites)
+
+// the context for message execution carries a copy of the root multistore (so that handlers can open
+// historical contexts): it shares the root's substores
+//@ func (app *BaseApp) txContext(ctx sdk.Ctx, txBytes []byte) (c sdk.Context, m sdk.MultiStore)
+//@   props C11
+//@   mode heap
+//@   requires dyntype(app.cms) == typeid("*store/rootmulti.Store")
+//@   modifies ms.shared
+//@   may_panic
+//@   ensures c.ms == m && ms.shared[m]
+//@   ensures forall x Iface :: old(ms.shared[x]) ==> ms.shared[x]
+
+// the context for the ante handler carries a cache-wrapped multistore: nothing reaches the root until Write
+//@ func (app *BaseApp) cacheTxContext(ctx sdk.Ctx, txBytes []byte) (c sdk.Context, m sdk.CacheMultiStore)
+//@   props C11
+//@   mode heap
+//@   modifies ms.shared
+//@   may_panic
+//@   ensures c.ms == m && !ms.shared[m] && ifacenotnil(m)
+
+// C11 for one transaction: only DeliverTx flushes a cache multistore (the ante handler's, and only when the
+// ante handler did not abort); Simulate must execute the message on an isolated store (precondition of runMsg -
+// known finding F10: it does not).
+//@ func (app *BaseApp) runTx(mode runTxMode, txBytes []byte, tx sdk.Tx) (result sdk.Result)
+//@   props C11
+//@   mode heap
+//@   requires dyntype(app.cms) == typeid("*store/rootmulti.Store")
+//@   modifies everything
+//@   keeps ms.
+//@   may_panic
+//@   ensures [noflush] mode != 2 ==> ms.cwrites == old(ms.cwrites)
